@@ -2,10 +2,12 @@
 // jacobi/sor/ssor (par_relax.cpp) on the real library.
 // usage: [mpirun -n P] drv_relax <casefile>
 //   <cid> seq <method> <sweeps> <omega> csr n n nnz ptr.. cols.. vals..  x[n] b[n]
-//   <cid> par <method> <sweeps> <omega> <tap> <ppn> <scramble> <np> <ParLit>  x[n] b[n]
+//   <cid> par <method> <sweeps> <omega> <tap> <ppn> <scramble> <np> <tinyrow> <ParLit>  x[n] b[n]
 //        (np = process count the case is meant for; other launches skip it.  scramble: 0 none, 1 reverse every
 //         stored on_proc/off_proc row, 2 rotate it by one, and clear the sorted/diag_first flags, so that the
-//         routine's own sort()/move_diag() preamble has work to do)
+//         routine's own sort()/move_diag() preamble has work to do.  tinyrow >= 0: after construction the stored
+//         diagonal of that global row is overwritten with 2^-60 (COOMatrix::add_value drops |v| <= zero_tol, so such
+//         an entry cannot be passed through the literal); -1: nothing)
 // output (rank 0 only for seq):
 //   <cid> X <values>                 sequential result
 //   <cid> B <0|1>                    1 = right-hand side bitwise unchanged
@@ -48,6 +50,7 @@ static void run_case(const std::string& cid, Toks& t) {
     } else if (op == "par") {
         std::string method = t.next(); int sweeps = t.next_int(); double omega = t.next_num();
         int tap = t.next_int(); int ppn = t.next_int(); int scr = t.next_int(); int np = t.next_int();
+        int tinyrow = t.next_int();
         if (np != g_np) return;
         char buf[16]; snprintf(buf, sizeof buf, "%d", ppn); setenv("PPN", buf, 1);   // read by Topology when the partition is built
         ParLit L; L.parse(t);
@@ -56,6 +59,11 @@ static void run_case(const std::string& cid, Toks& t) {
         ParCSRMatrix* A = L.csr();
         scramble_rows((CSRMatrix*)A->on_proc, scr); scramble_rows((CSRMatrix*)A->off_proc, scr);
         int first = A->partition->first_local_row, ln = A->local_num_rows;
+        if (tinyrow >= first && tinyrow < first + ln) {
+            int li = tinyrow - first;
+            for (int j = A->on_proc->idx1[li]; j < A->on_proc->idx1[li + 1]; j++)
+                if (A->on_proc_column_map[A->on_proc->idx2[j]] == tinyrow) A->on_proc->vals[j] = ldexp(1.0, -60);
+        }
         ParVector x(A->global_num_rows, ln), b(A->global_num_rows, ln), tmp(A->global_num_rows, ln);
         fill_parvec(x, first, xv); fill_parvec(b, first, bv);
         for (int i = 0; i < ln; i++) tmp.local[i] = 12345.0;
